@@ -80,6 +80,21 @@ def run_client_multi(ver, key_arg, n, make_replies, timeout=12):
     return {"rc": p.returncode, "stdout": out, "stderr": err, "requests": reqs, "dgrams": dgrams, "timed_out": timed_out}
 
 
+SEEN_NONCES = []
+
+
+def check_nonces_fresh(ctx):
+    """across all client runs of this check no nonce may repeat (64 / 32 random bytes each)"""
+    seen = {}
+    for n in SEEN_NONCES:
+        seen[n] = seen.get(n, 0) + 1
+    dup = [n for n, c in seen.items() if c > 1 and n]
+    ctx.count("distinct_nonces_observed", len(seen))
+    if dup:
+        ctx.violation("property", "%d nonce value(s) were used by more than one request across client runs: a response recorded in one run is valid in another" % len(dup),
+                      {"cmd": "nonce-reuse", "nonce": rt.hx(dup[0])})
+
+
 def multi_runs(ctx, pid):
     """-n N runs: genuine responses first, then (for C01) one that is unauthentic in a way that only
     a client carrying state from the earlier responses of the run could miss; the per-response model
@@ -152,6 +167,11 @@ def multi_runs(ctx, pid):
                "stdout": res["stdout"][-400:], "stderr": res["stderr"][-600:]}
         if res["timed_out"]:
             ctx.violation("tie", "client -n %d timed out waiting although every response was sent, 4 attempts (%s)" % (c["n"], c["kind"]), rep); continue
+        # every request carries a FRESH nonce: within a run all nonces differ (and across runs, below)
+        run_nonces = [cases[k][2] for k in mine]
+        SEEN_NONCES.extend(run_nonces)
+        if len(set(run_nonces)) != len(run_nonces):
+            ctx.violation("property", "the %d requests of one client run do not carry distinct nonces: a genuine response to one of them is valid for another (replay within the run)" % c["n"], rep); continue
         auth = [py_authentic(c["ver"], LT_PK, cases[k][3], cases[k][2], cases[k][4]) for k in mine]
         # the client stops (non-zero exit) at the first response it rejects
         lead_model = 0
@@ -457,6 +477,7 @@ def judge(ctx, pid, plan, results):
     mk = vlib.run_model(["mkreq %s %s %s" % (v, rt.hx(n), rt.hx(pk) if pk else "-") for v, pk, n, rq, _ in cases])
     for c, res, case, pred, mline, mkl in zip(plan, results, cases, preds, raw, mk):
         ver, pk, nonce, req, dgram = case
+        SEEN_NONCES.append(nonce)
         ob = observed(res)
         ctx.evaluations += 1
         label = res.get("label", "?")
@@ -549,6 +570,7 @@ def run_c01(ctx):
     results = run_cases(ctx, "C01", plan)
     judge(ctx, "C01", plan, results)
     multi_runs(ctx, "C01")
+    check_nonces_fresh(ctx)
     proof_verdict(ctx)
 
 
